@@ -360,3 +360,81 @@ def theorem_gate(ctx, prop_modules, extra_build=None):
         ctx.say("proof obligations failing: %s" % failing[:5])
         ctx.coverage["lake_log_tail"] = log[-3000:]
     return ok, failing
+
+
+def run_harness_robust(cmd, lines, timeout_per_batch=1800, extra_args=None):
+    """Like run_harness, but survives a process abort (stack overflow, OOM) or hang: the request
+    that killed the process gets the reply 'abort rc=<n>' / 'timeout' and the rest is re-run."""
+    replies = []
+    todo = list(lines)
+    while todo:
+        data = "\n".join(todo) + "\n"
+        try:
+            p = subprocess.run([HARNESS_BIN, cmd] + (extra_args or []), input=data, timeout=timeout_per_batch,
+                               stdout=subprocess.PIPE, stderr=subprocess.PIPE, text=True)
+            out, rc, timed_out = p.stdout, p.returncode, False
+        except subprocess.TimeoutExpired as e:
+            out = e.stdout or ""
+            if isinstance(out, bytes):
+                out = out.decode("utf-8", "replace")
+            rc, timed_out = -1, True
+        got = out.split("\n")
+        if got and got[-1] == "":
+            got.pop()
+        if len(got) >= len(todo):
+            replies += got[:len(todo)]
+            break
+        # process died while handling request number len(got)
+        replies += got
+        replies.append("timeout" if timed_out else "abort rc=%d" % rc)
+        todo = todo[len(got) + 1:]
+    return replies
+
+
+class Workdir:
+    """Scratch directory outside /repo and /verif, removed on exit."""
+
+    def __init__(self, tag):
+        import tempfile
+        base = "/var/tmp"
+        self.path = tempfile.mkdtemp(prefix="verif-%s-" % tag, dir=base)
+
+    def __enter__(self):
+        return self
+
+    def __exit__(self, *a):
+        import shutil
+        shutil.rmtree(self.path, ignore_errors=True)
+
+    def write(self, rel, content):
+        p = os.path.join(self.path, rel)
+        os.makedirs(os.path.dirname(p), exist_ok=True)
+        mode = "wb" if isinstance(content, bytes) else "w"
+        with open(p, mode) as f:
+            f.write(content)
+        return p
+
+
+def analyze(requests):
+    """requests: list of dict(inputs=[paths], libs=[paths], curve=str). Returns parsed replies:
+    dict with events/files, or {'crash': text}."""
+    lines = [json.dumps(r) for r in requests]
+    out = []
+    for rep in run_harness_robust("analyze", lines):
+        if rep.startswith("{"):
+            out.append(json.loads(rep))
+        else:
+            out.append({"crash": rep})
+    return out
+
+
+def reports_of(reply):
+    return [e["report"] for e in reply.get("events", []) if "report" in e]
+
+
+def norm_report(r, with_pos=True):
+    """canonical, comparable form of a report"""
+    def lab(l):
+        return (os.path.basename(l["file"]), l["start"], l["end"], l["label"]) if with_pos else (os.path.basename(l["file"]), l["label"])
+    return (r["id"], r["level"], r["message"], tuple(sorted(lab(l) for l in r["primary"])),
+            tuple(sorted(lab(l) for l in r["secondary"])), tuple(r["notes"]))
